@@ -1,3 +1,4 @@
 //! Shared helpers for the correspondence harness: PRNG, hex, line output.
 pub mod server;
+pub mod table;
 pub mod util;
